@@ -506,7 +506,7 @@ def check_lt(repo, rep):
               implied = True
       if implied:
         rep.ok('R4/order', '%s.__lt__ path returns %s consistently with score < score' % (q, norm(rv)), loc=f.loc(rv))
-      elif kind is None and not (au.const(rv)[0] and isinstance(au.const(rv)[1], bool)):
+      elif kind is None and not (au.const(rv)[0] and isinstance(au.const(rv)[1], bool)) and au.aliens(rv, (a, b)):
         # neither the canonical comparison nor a recognised different relation between the two scores
         rep.undecided('R4/order', '%s.__lt__' % q, 'the returned value `%s` is not a recognised comparison of the two scores' % norm(rv)[:80], f.loc(ret[0].ast))
       else:
